@@ -1,6 +1,7 @@
 # C16 -- after any restart the oplog is either discarded or still decodes correctly
 import itertools, random, re
 from nodegen import *
+from common import build_binary
 import crash
 
 ID = "C16"
@@ -25,10 +26,21 @@ DBS = ["d1", "d2", "d3", "d4"]
 
 
 def impl_runner(cases, ctx, rundir):
-    return crash.run_cases(cases, ctx.drv, rundir, "crashc")
+    # every few restarts the real binary (src/bin/main.rs's own start-up sequence) is started on a copy of the
+    # directory as well and read over TCP: what it serves must be what the harness's start-up mirror loaded
+    rc, out, binary = build_binary()
+    if rc != 0:
+        return {}, ["the nun-db binary does not build: %s" % out[-600:]]
+    return crash.run_cases(cases, ctx.drv, rundir, "crashc", binary=binary, bin_stride=9)
 
 
 augment = crash.augment_case
+
+
+def extra_stats(cases, impl):
+    same = sum(1 for io in impl.values() for a in io.get("aux", []) if a == "#bin same")
+    diff = sum(1 for io in impl.values() for a in io.get("aux", []) if a.startswith("#bin DIFF"))
+    return {"restarts_also_run_with_the_real_binary": same + diff, "binary_differs": diff}
 
 
 def canon(obs):
@@ -273,6 +285,11 @@ def oracle(case, io, mo):
             if t[0] == "#site":
                 msites[(t[1], int(t[2]))] = t[3]
     obs = io["obs"]
+    for a in io.get("aux", []):
+        if a.startswith("#bin DIFF"):
+            fails.append(("binary-start-differs", "the real binary started on a crash directory serves something else than the harness's "
+                          "start-up sequence loaded: %s" % a[10:600]))
+            break
     a_lines = [l for l in obs if re.match(r"^A\d+ ", l)]
     if len(a_lines) != len(segs) - 1 or any("PANIC" in l.split(" | ")[0] for l in a_lines):
         return [("history-incomplete", "; ".join(obs[:3])[:300])]
